@@ -14,5 +14,12 @@ PART = {
          "real checksum must change; distinct = distinct (op, input bytes)",
     assumptions=["little-endian host (memcpy loads)", "ARM hardware CRC path not compiled on this host"],
     trusted_base=["zlib crc32() as C-side oracle"],
+    text="CRC function part: proved for all inputs that the table/slicing-by-8 model of carquet_crc32 equals the bit-serial "
+         "IEEE 802.3 CRC-32, that incremental updates compose for every split, and that every modification confined to a "
+         "window of <= 32 message bits (single bit, single byte, any <= 4-byte change, any burst) changes the checksum "
+         "(bound shown tight by a kernel-checked 33-bit counterexample); model tied to the C code and zlib on all lengths "
+         "0..257 x alignments, all short splits and seeded bursts",
+    level_note="Lean kernel; translator (CRC32_POLY); harness; zlib as second oracle; little-endian host",
+    technique="Lean 4 proof (GF(2)-linearity of the LFSR) over bit-serial spec + table model; differential correspondence",
   ),
 }
